@@ -999,6 +999,15 @@ class Lowering:
         if op in self.BINOPS:
             a = self.expr(l, ctx)
             b = self.expr(r, ctx)
+            hook = self.cfg.get('arith_hooks', {}).get(ctx.fn.cname, {}).get(op + '|' + ty(n))
+            if hook:
+                # declared rule: the operator is printed as a call of a one-line primitive whose body
+                # is this very operator and whose contract is enforced on its own
+                self.report.setdefault('arith_hooks', [])
+                ent = '%s: %s on %s -> %s' % (ctx.fn.cname, op, ty(n), hook)
+                if ent not in self.report['arith_hooks']:
+                    self.report['arith_hooks'].append(ent)
+                return '%s(%s, %s)' % (hook, a, b)
             return '(%s %s %s)' % (a, op, b)
         raise Unsupported('binary operator %s' % op)
 
